@@ -40,7 +40,7 @@ from engines import masterloop
 
 scheduler.DIMENSION_COUNT = 3
 
-LOOP_PROPS = ('C09', 'C11')
+LOOP_PROPS = ('C09', 'C11', 'C01', 'C03', 'C04', 'C05', 'C06', 'C08')
 CELL_PROPS = ('C01', 'C03', 'C04', 'C05', 'C06', 'C08', 'C02')
 _TRUTH = None
 _WRAPPED = False
@@ -1395,6 +1395,48 @@ class World(masterloop.LoopWorld):
                         if s.state is scheduler.State.frozen}
         self.probes['pending_start_freeze'] += len(frozen_after -
                                                    frozen_before)
+
+    # -- the same truth bookkeeping for the loop tier (engines/masterloop.py),
+    #    called from wrappers around the master's own calls
+    def lt_process_begin(self, path, children):
+        global _FREEZE_LOG
+        cellp = self.prop in CELL_PROPS
+        events = self.truth_before_process(path, children) if cellp else None
+        self._proc_t0 = self.clock.peek()
+        _FREEZE_LOG = [] if cellp else None
+        return events
+
+    def lt_process_end(self, path, children, events, done):
+        global _FREEZE_LOG
+        if done and self.prop in CELL_PROPS:
+            self.truth_after_process(path, children, events)
+        _FREEZE_LOG = None
+
+    def lt_integrity_begin(self):
+        global _FREEZE_LOG
+        cellp = self.prop in CELL_PROPS
+        _FREEZE_LOG = [] if cellp else None
+        if not cellp:
+            return set()
+        return {name for name in self.truth.srv
+                if self._stored_state(name) == 'down'}
+
+    def lt_integrity_end(self, down_before, done):
+        global _FREEZE_LOG
+        if done and self.prop in CELL_PROPS:
+            self.truth_apply_freezes(_FREEZE_LOG, down_before)
+        _FREEZE_LOG = None
+
+    def lt_new_truth(self):
+        global _TRUTH
+        if self.prop not in CELL_PROPS:
+            return
+        old_truth = self.truth
+        self.truth = MasterTruth()
+        self.truth.stored_state = self._stored_state
+        if old_truth is not None:
+            self.truth.last_not_down = dict(old_truth.last_not_down)
+        _TRUTH = self.truth
 
     def op_tick(self, _op):
         if self.master is None:
@@ -3057,15 +3099,22 @@ class MasterSim(enginemod.Engine):
         'treadmill.scheduler.zkbackend.ZkBackend', 'treadmill.zkutils',
         'treadmill.scheduler.masterapi (event source)', 'treadmill.traits',
         'treadmill.utils unit parsers', 'treadmill.trace.post_zk',
+        'loop tier (engines/masterloop.py, 30% of the runs except C02/C10): '
+        'Master.run_loop, Master.watch, attach_watchers, store_timezone, '
+        'the process_complete hand-shake and kazoo.recipe.watchers.'
+        'ChildrenWatch, on real threads parked and released one at a time '
+        'by the seeded driver',
     )
     stub_components = (
         'ZooKeeper: simkit.zk (single-copy, linearizable, sessions, '
         'ephemerals, sequence nodes, watches)',
         'clock (virtual)',
-        'Master.watch/run_loop/run glue: the simulator plays the four '
+        'stepping tier only - Master.watch/run_loop glue: the simulator plays the four '
         'children watchers (one outstanding snapshot per path, FIFO) and '
-        'calls the step functions in run_loop order; leader election not '
-        'simulated (one master at a time)',
+        'calls the step functions in run_loop order',
+        'Master.run (leader election lock): not simulated, one master at a '
+        'time', 'loop tier: Loader.save_state_reports (pandas reports no '
+        'property reads) is a no-op',
         'trace posting to the local events dir is off (app_events_dir=None)',
     )
 
@@ -3104,8 +3153,14 @@ class MasterSim(enginemod.Engine):
     def assumptions(self, prop):
         return ['ZooKeeper is a single-copy linearizable store',
                 'one master at a time (the election lock is not simulated)',
-                'the watcher/queue discipline of Master.watch is modelled by '
-                'the harness, not executed']
+                'stepping tier: the watcher/queue discipline of Master.watch '
+                'is modelled by the harness (one outstanding snapshot per '
+                'path); loop tier (30% of the runs of C01, C03-C06, C08, C09, '
+                'C11): Master.run_loop, watch, attach_watchers and the kazoo '
+                'ChildrenWatch recipe are executed on three threads with '
+                'strict baton passing - the seeded driver decides at every '
+                'queue.popleft(), time.sleep() and process_complete.wait() '
+                'which thread runs; save_state_reports is stubbed there']
 
     def irrelevant_probes(self, prop):
         out = {'integrity_repairs', 'schedule_once_removed', 'server_reloads'}
